@@ -34,6 +34,45 @@ func keyBytes(k string, spare int) []byte {
 	return b
 }
 
+// keyArena hands out the keys of one command as sub-slices of ONE buffer (what a parser that
+// slices its line buffer would produce): every key is followed by guard bytes and its
+// capacity reaches over the guard and the following keys. A handler that appends to a key
+// slice in place overwrites guard bytes or the next key; check() notices.
+type keyArena struct {
+	buf  []byte
+	orig []byte
+}
+
+func newKeyArena(keys []string, spare int) (*keyArena, [][]byte) {
+	a := &keyArena{}
+	var offs []int
+	for _, k := range keys {
+		offs = append(offs, len(a.buf))
+		a.buf = append(a.buf, k...)
+		for i := 0; i < spare; i++ {
+			a.buf = append(a.buf, 0xA5)
+		}
+	}
+	a.buf = append(a.buf, 0xA5, 0xA5, 0xA5, 0xA5, 0xA5, 0xA5, 0xA5, 0xA5)
+	a.orig = append([]byte(nil), a.buf...)
+	out := make([][]byte, len(keys))
+	for i, k := range keys {
+		if spare == 0 {
+			out[i] = a.buf[offs[i] : offs[i]+len(k) : offs[i]+len(k)]
+		} else {
+			out[i] = a.buf[offs[i] : offs[i]+len(k)]
+		}
+	}
+	return a, out
+}
+
+func (a *keyArena) check() string {
+	if string(a.buf) != string(a.orig) {
+		return "the handler wrote into the caller's memory behind a key slice"
+	}
+	return ""
+}
+
 // drainGet reads both channels of a handler Get the way the orchestrators do.
 func drainGet(resChan <-chan common.GetResponse, errChan <-chan error) ([]common.GetResponse, error) {
 	var out []common.GetResponse
@@ -98,6 +137,17 @@ func handlerExec(h handlers.Handler, c wire.Cmd, spare int) wire.Result {
 var handlerWatchdog = 20 * time.Second
 
 func handlerExecRaw(h handlers.Handler, c wire.Cmd, spare int) (res wire.Result) {
+	names := c.Keys
+	if !c.IsGet() {
+		names = []string{c.Key}
+	}
+	arena, akeys := newKeyArena(names, spare)
+	keyOf := func(i int) []byte { return akeys[i] }
+	defer func() {
+		if d := arena.check(); d != "" {
+			res.Anomalies = append(res.Anomalies, d)
+		}
+	}()
 	defer func() {
 		if r := recover(); r != nil {
 			res = wire.Result{Class: fmt.Sprintf("panic:%v", r)}
@@ -105,7 +155,7 @@ func handlerExecRaw(h handlers.Handler, c wire.Cmd, spare int) (res wire.Result)
 	}()
 	switch c.Op {
 	case "set", "add", "replace", "append", "prepend":
-		req := common.SetRequest{Key: keyBytes(c.Key, spare), Data: append([]byte(nil), c.Value...), Flags: c.Flags, Exptime: c.TTL, Opaque: c.Opaque}
+		req := common.SetRequest{Key: keyOf(0), Data: append([]byte(nil), c.Value...), Flags: c.Flags, Exptime: c.TTL, Opaque: c.Opaque}
 		var err error
 		switch c.Op {
 		case "set":
@@ -121,11 +171,11 @@ func handlerExecRaw(h handlers.Handler, c wire.Cmd, spare int) (res wire.Result)
 		}
 		res.Class = errClass(err)
 	case "delete":
-		res.Class = errClass(h.Delete(common.DeleteRequest{Key: keyBytes(c.Key, spare), Opaque: c.Opaque}))
+		res.Class = errClass(h.Delete(common.DeleteRequest{Key: keyOf(0), Opaque: c.Opaque}))
 	case "touch":
-		res.Class = errClass(h.Touch(common.TouchRequest{Key: keyBytes(c.Key, spare), Exptime: c.TTL, Opaque: c.Opaque}))
+		res.Class = errClass(h.Touch(common.TouchRequest{Key: keyOf(0), Exptime: c.TTL, Opaque: c.Opaque}))
 	case "gat":
-		r, err := h.GAT(common.GATRequest{Key: keyBytes(c.Key, spare), Exptime: c.TTL, Opaque: c.Opaque})
+		r, err := h.GAT(common.GATRequest{Key: keyOf(0), Exptime: c.TTL, Opaque: c.Opaque})
 		if err != nil {
 			res.Class = errClass(err)
 			break
@@ -145,7 +195,8 @@ func handlerExecRaw(h handlers.Handler, c wire.Cmd, spare int) (res wire.Result)
 	case "get", "gete":
 		req := common.GetRequest{NoopEnd: c.NoopEnd, NoopOpaque: c.Opaque + uint32(len(c.Keys))}
 		for i, k := range c.Keys {
-			req.Keys = append(req.Keys, keyBytes(k, spare))
+			_ = k
+			req.Keys = append(req.Keys, keyOf(i))
 			req.Opaques = append(req.Opaques, c.Opaque+uint32(i))
 			req.Quiet = append(req.Quiet, (c.NoopEnd || i != len(c.Keys)-1) && !c.NonQuiet)
 		}
